@@ -209,6 +209,17 @@ func main() {
 	if (hits == 0 || misses == 0 || stats["lru:evictions"] == 0) && c.Violations() == 0 {
 		vlib.Infra("vacuous random histories: %d hash-only hits, %d misses, %d evictions", hits, misses, stats["lru:evictions"])
 	}
+	selfErr := errNoCandidate
+	for _, h := range hs {
+		if h.Workers == 1 {
+			if selfErr = rep.selfTest(h, scratch+"/trace"); selfErr != errNoCandidate {
+				break
+			}
+		}
+	}
+	if selfErr != nil && c.Violations() == 0 {
+		vlib.Infra("%v", selfErr)
+	}
 	events, err := rep.validate(hs, scratch+"/trace")
 	if err != nil {
 		if c.Violations() > 0 {
